@@ -182,6 +182,8 @@ class Interp:
         self.pure_calls = set(pure_calls)
         self.on_method = None       # hook(term, name, args, kwargs)
         self.stubs = {}             # in-repo qualname -> behaviour
+        self.ret_types = {'unicodedata.normalize': 'str', 're.sub': 'str',
+                          're.Pattern.sub': 'str'}
         self.types = {}             # term -> type tag
         self.attrs = {}             # term -> {attribute: value}
         self.lens = {}              # term -> known length
@@ -380,6 +382,8 @@ class Interp:
         self.effect('call', name, targs)
         if name in self.pure_calls:
             t = T('call', name, *targs)
+            if name in self.ret_types:
+                self.types[t] = self.ret_types[name]
             self.may_raise(name, t)
             return t
         self.fresh_n += 1
@@ -431,6 +435,9 @@ class Interp:
                     len([x for x in self.frames
                          if x.func is not None and x.func.node is node]) >= 2:
                 return self.opaque_call(f.qualname, f, args, kwargs)
+        for d in getattr(f, 'decorators', ()):
+            self.inexact('function %s is wrapped by decorator %s' % (
+                f.qualname, d))
         env = dict(f.closure or {})
         if f.bound is not None:
             args = [f.bound] + list(args)
@@ -584,8 +591,9 @@ class Interp:
                         dv.name == 'contextlib.contextmanager':
                     v.is_ctxmgr = True
                 return v
-        if isinstance(dv, T):
-            return v
+        name = dv.name if isinstance(dv, ExtRef) else show(dv)
+        if isinstance(v, FuncRef):
+            v.decorators = getattr(v, 'decorators', []) + [name]
         return v
 
     def st_ClassDef(self, s, fr):
